@@ -272,6 +272,15 @@ fn ensure_inner_pool<'a, T: 'static>(
         .or_insert_with(|| RawOpaquePool::with_layout(layout))
 }
 
+#[cfg(folo_verif)]
+impl LocalBlindPool {
+    /// Verification hook: read-only snapshots of every inner pool, in layout key order.
+    #[must_use]
+    pub fn verif_probe(&self) -> Vec<crate::verif::PoolProbe> {
+        self.core.borrow().values().map(RawOpaquePool::verif_probe).collect()
+    }
+}
+
 #[cfg(test)]
 #[cfg_attr(coverage_nightly, coverage(off))]
 mod tests {
